@@ -203,6 +203,59 @@ def siblings(name):
             from jumanji.environments.packing.knapsack.generator import RandomGenerator as KG
 
             out = [lambda: E.Knapsack(generator=KG(num_items=50, total_budget=5.0))]
+        elif base == "TSP":
+            from jumanji.environments.routing.tsp.generator import UniformGenerator as TG
+            from jumanji.environments.routing.tsp.reward import SparseReward as TSR
+
+            out = [lambda: E.TSP(generator=TG(num_cities=5)), lambda: E.TSP(generator=TG(num_cities=7), reward_fn=TSR())]
+        elif base == "CVRP":
+            from jumanji.environments.routing.cvrp.generator import UniformGenerator as CG2
+            from jumanji.environments.routing.cvrp.reward import SparseReward as CSR
+
+            out = [lambda: E.CVRP(generator=CG2(num_nodes=5, max_capacity=8, max_demand=4)),
+                   lambda: E.CVRP(generator=CG2(num_nodes=20, max_capacity=12, max_demand=6), reward_fn=CSR())]
+        elif base == "RubiksCube":
+            from jumanji.environments.logic.rubiks_cube.generator import ScramblingGenerator as RG2
+
+            out = [lambda: E.RubiksCube(generator=RG2(cube_size=5, num_scrambles_on_reset=4), time_limit=3),
+                   lambda: E.RubiksCube(generator=RG2(cube_size=2, num_scrambles_on_reset=3), time_limit=5)]
+        elif base == "GraphColoring":
+            from jumanji.environments.logic.graph_coloring.generator import RandomGenerator as GG
+
+            out = [lambda: E.GraphColoring(generator=GG(num_nodes=6, edge_probability=0.5))]
+        elif base == "FlatPack":
+            from jumanji.environments.packing.flat_pack.generator import RandomFlatPackGenerator as FG
+
+            out = [lambda: E.FlatPack(generator=FG(num_row_blocks=2, num_col_blocks=3))]
+        elif base == "MMST":
+            from jumanji.environments.routing.mmst.generator import SplitRandomGenerator as MG2
+
+            out = [lambda: E.MMST(generator=MG2(num_nodes=10, num_edges=15, max_degree=4, num_agents=2, num_nodes_per_agent=2,
+                                                max_step=5), time_limit=5)]
+        elif base == "MultiCVRP":
+            from jumanji.environments.routing.multi_cvrp.generator import UniformRandomGenerator as UG2
+
+            out = [lambda: E.MultiCVRP(generator=UG2(num_customers=6, num_vehicles=3))]
+        elif base == "PacMan":
+            from jumanji.environments.routing.pac_man.generator import AsciiGenerator as AG
+
+            mini = ["XXXXXXXXXXX", "XS O G O SX", "X XXX XXX X", " G T G T G ", "X XXX XXX X", "X T     T X", "X XXX XXX X",
+                    "XS O P O SX", "XXXXXXXXXXX"]
+            out = [lambda: E.PacMan(generator=AG(mini), time_limit=4)]
+        elif base == "Sokoban":
+            from jumanji.environments.routing.sokoban.generator import SimpleSolveGenerator as SSG
+
+            out = [lambda: E.Sokoban(generator=SSG(), time_limit=5)]
+        elif base == "Sudoku":
+            import os
+
+            import jumanji
+            from jumanji.environments.logic.sudoku import data as sd
+            from jumanji.environments.logic.sudoku.generator import DatabaseGenerator as DG
+
+            db = np.load(os.path.join(os.path.dirname(jumanji.__file__), "environments", "logic", "sudoku", "data",
+                                      sd.DATABASES["very-easy"]))
+            out = [lambda: E.Sudoku(generator=DG(database=db[:7]))]
     except Exception:  # noqa: BLE001
         out = []
     return out
@@ -217,9 +270,19 @@ def sibling_rollout_digest(env, seed):
     st, ts = jax.jit(env.reset)(jax.random.PRNGKey(seed * 3 + 2))
     outs = [to_np((st, ts))]
     step = jax.jit(env.step)
+    a = None
     for _ in range(3):
-        st, ts = step(st, jnp.asarray(catalog.random_action(env, rng)))
+        a = jnp.asarray(catalog.random_action(env, rng))
+        st, ts = step(st, a)
         outs.append(to_np((st, ts)))
+    # ... the last action once more (a revisit / re-selection: the invalid-action branch of most environments) and an
+    # action the reset mask forbids, so that penalties and invalid-move handling are part of the digest too
+    st, ts = step(st, a)
+    outs.append(to_np((st, ts)))
+    st0, ts0 = jax.jit(env.reset)(jax.random.PRNGKey(seed * 3 + 2))
+    bad = catalog.illegal_action(env, ts0.observation, rng)
+    if bad is not None:
+        outs.append(to_np(step(st0, jnp.asarray(bad))))
     return jsonify.digest(outs)
 
 
